@@ -18,6 +18,9 @@ pub struct FdCfg {
     pub window: usize,
     pub initial_ms: u64,
     pub max_ms: u64,
+    /// the two "steady" inter-arrival times a <= b <= max_interval (0 = max/4 and max/2)
+    pub a_over: u64,
+    pub b_over: u64,
 }
 
 impl FdCfg {
@@ -26,16 +29,24 @@ impl FdCfg {
         (self.phi * self.max_ms.max(self.initial_ms) as f64).ceil() as u64
     }
     pub fn a_ms(&self) -> u64 {
-        (self.max_ms / 4).max(1)
+        if self.a_over > 0 {
+            self.a_over
+        } else {
+            (self.max_ms / 4).max(1)
+        }
     }
     pub fn b_ms(&self) -> u64 {
-        (self.max_ms / 2).max(1)
+        if self.b_over > 0 {
+            self.b_over
+        } else {
+            (self.max_ms / 2).max(1)
+        }
     }
     pub fn json(&self) -> Value {
-        json!({"phi_threshold": self.phi, "sampling_window_size": self.window, "initial_interval_ms": self.initial_ms, "max_interval_ms": self.max_ms})
+        json!({"phi_threshold": self.phi, "sampling_window_size": self.window, "initial_interval_ms": self.initial_ms, "max_interval_ms": self.max_ms, "a_ms": self.a_ms(), "b_ms": self.b_ms()})
     }
     pub fn from_json(v: &Value) -> Option<FdCfg> {
-        Some(FdCfg { phi: v["phi_threshold"].as_f64()?, window: v["sampling_window_size"].as_u64()? as usize, initial_ms: v["initial_interval_ms"].as_u64()?, max_ms: v["max_interval_ms"].as_u64()? })
+        Some(FdCfg { phi: v["phi_threshold"].as_f64()?, window: v["sampling_window_size"].as_u64()? as usize, initial_ms: v["initial_interval_ms"].as_u64()?, max_ms: v["max_interval_ms"].as_u64()?, a_over: v["a_ms"].as_u64().unwrap_or(0), b_over: v["b_ms"].as_u64().unwrap_or(0) })
     }
 }
 
@@ -106,13 +117,18 @@ pub struct Observer {
     pub last_fresh_at: Option<u64>,
     pub now: u64,
     pub relay_hb: u64,
+    /// time of the last heartbeat that counts as an observation (every strictly higher value but
+    /// the very first one, which only registers the member)
+    pub last_observation_at: Option<u64>,
+    /// inter-observation intervals <= max_interval recorded since the member was last found dead
+    pub usable_intervals: u64,
 }
 
 impl Observer {
     pub fn new(cfg: FdCfg) -> Observer {
         let fd = FailureDetectorConfig::new(cfg.phi, cfg.window, Duration::from_millis(cfg.max_ms), Duration::from_millis(cfg.initial_ms), Duration::from_secs(100_000_000));
         let node = Node::new(&Id::v4("obs", 1, 10_001), &NodeOpts { fd, ..Default::default() });
-        Observer { node, cfg, highest: 0, fresh_count: 0, last_fresh_at: None, now: 0, relay_hb: 0 }
+        Observer { node, cfg, highest: 0, fresh_count: 0, last_fresh_at: None, now: 0, relay_hb: 0, last_observation_at: None, usable_intervals: 0 }
     }
 
     fn deliver(&mut self, hb: u64, relay: bool) {
@@ -132,6 +148,14 @@ impl Observer {
                 self.highest += 1;
                 self.fresh_count += 1;
                 self.last_fresh_at = Some(self.now);
+                if self.fresh_count >= 2 {
+                    if let Some(t) = self.last_observation_at {
+                        if self.now - t <= self.cfg.max_ms {
+                            self.usable_intervals += 1;
+                        }
+                    }
+                    self.last_observation_at = Some(self.now);
+                }
                 let hb = self.highest;
                 self.deliver(hb, ev == Ev::FreshRelay);
             }
@@ -161,6 +185,14 @@ impl Observer {
                 }
                 if self.fresh_count < 2 && live {
                     return (Some(live), Some(("C11", format!("member live after only {} strictly increasing heartbeat values", self.fresh_count), "live-without-evidence".into())));
+                }
+                // fewer than two usable observations (= no interval <= max_interval since it was last
+                // found dead): never live
+                if self.usable_intervals == 0 && live {
+                    return (Some(live), Some(("C10", "member reported live although no two heartbeat observations at most max_interval apart exist since it was last found dead".into(), "live-without-usable-observations".into())));
+                }
+                if !live {
+                    self.usable_intervals = 0;
                 }
                 if let Some(t) = self.last_fresh_at {
                     if self.now - t > self.cfg.bound_ms() && (live || !dead) {
@@ -216,10 +248,21 @@ pub fn run_seq(cfg: &FdCfg, seq: &[Ev]) -> Result<Vec<bool>, (&'static str, Stri
 
 /// All sequences up to `depth` that contain at least one Eval as last event (a sequence not ending
 /// in Eval has the same verdicts as its longest prefix ending in Eval).
-pub fn exhaustive(cfg: &FdCfg, depth: usize, want: &str, deadline: Instant) -> (Tally, Vec<Viol>, bool) {
+/// Non-initial roots (deterministic prefixes) from which the exhaustive enumeration is repeated.
+pub fn roots() -> Vec<(&'static str, Vec<Ev>)> {
+    vec![
+        ("initial", vec![]),
+        ("live", vec![Ev::Fresh, Ev::Fresh, Ev::AdvA, Ev::Fresh, Ev::Eval]),
+        ("died-after-being-live", vec![Ev::Fresh, Ev::Fresh, Ev::AdvA, Ev::Fresh, Ev::Eval, Ev::AdvBoundPlus, Ev::Eval]),
+        ("heartbeats-while-dead-then-dead-again", vec![Ev::Fresh, Ev::Eval, Ev::Fresh, Ev::AdvA, Ev::Fresh, Ev::AdvBoundPlus, Ev::Eval]),
+    ]
+}
+
+pub fn exhaustive(cfg: &FdCfg, root: &[Ev], depth: usize, want: &str, deadline: Instant) -> (Tally, Vec<Viol>, bool) {
     let capped = std::sync::atomic::AtomicBool::new(false);
-    // parallel over the first two events
-    let prefixes: Vec<Vec<Ev>> = ALPHABET.iter().flat_map(|a| ALPHABET.iter().map(move |b| vec![*a, *b])).collect();
+    // parallel over the first two events after the root
+    let prefixes: Vec<Vec<Ev>> = ALPHABET.iter().flat_map(|a| ALPHABET.iter().map(move |b| { let mut v = root.to_vec(); v.push(*a); v.push(*b); v })).collect();
+    let depth = depth + root.len();
     let results: Vec<(Tally, Vec<Viol>)> = prefixes
         .par_iter()
         .map(|prefix| {
@@ -366,6 +409,18 @@ pub fn periodic(cfg: &FdCfg, period: usize, arrivals: u64, deadline: Instant) ->
 /// Steady arrivals (C11 second sentence): fresh heartbeats every d in {a, b} (all patterns of
 /// period <= 3), evaluations right after each advance; phi_threshold = b / min(a, initial) (+1e-6).
 pub fn steady(base: &FdCfg, arrivals: u64) -> (Tally, Vec<Viol>) {
+    let mut tally = Tally::default();
+    let mut viols = vec![];
+    // (a, b) with a <= b <= max_interval, including b = max_interval exactly
+    for (a, b) in [(base.max_ms / 4, base.max_ms / 2), (base.max_ms / 2, base.max_ms), (base.max_ms, base.max_ms)] {
+        let (t, v) = steady_ab(&FdCfg { a_over: a.max(1), b_over: b.max(1), ..*base }, arrivals);
+        tally.merge(&t);
+        viols.extend(v);
+    }
+    (tally, viols)
+}
+
+fn steady_ab(base: &FdCfg, arrivals: u64) -> (Tally, Vec<Viol>) {
     let (a, b) = (base.a_ms(), base.b_ms());
     let thr = (b as f64 / a.min(base.initial_ms) as f64) * (1.0 + 1e-6);
     let cfg = FdCfg { phi: thr, ..*base };
@@ -473,7 +528,7 @@ pub fn grid(tier: Tier) -> Vec<FdCfg> {
     for phi in &phis {
         for w in &windows {
             for (i, m) in &ivs {
-                out.push(FdCfg { phi: *phi, window: *w, initial_ms: *i, max_ms: *m });
+                out.push(FdCfg { phi: *phi, window: *w, initial_ms: *i, max_ms: *m, a_over: 0, b_over: 0 });
             }
         }
     }
@@ -487,18 +542,22 @@ pub fn run(property: &'static str, tier: Tier, started: Instant) -> Vec<Part> {
     let mut parts = vec![];
 
     let mut e = Part::new(&format!("fd/exhaustive(depth<={depth})"));
-    e.rule = format!("one real observer node, one member whose heartbeats arrive in crafted SYN digests; every event sequence of length <= {depth} ending in an evaluation over {{fresh heartbeat, fresh via a relay's digest, equal, lower, advance a / b / max_interval / max_interval+1ms / bound+1ms, evaluate}} for every configuration of the grid (phi x window x (initial, max interval)); oracle at every evaluation: live and dead disjoint and exhaustive, never live with fewer than two strictly increasing values, dead whenever the last strictly higher value is older than phi x max(max_interval, initial_interval); for C11 additionally every history containing equal/lower heartbeats is re-run without them and must give the same verdicts; non-trivial = histories with at least one live verdict");
+    e.rule = format!("one real observer node, one member whose heartbeats arrive in crafted SYN digests; every event sequence of length <= {depth} ending in an evaluation over {{fresh heartbeat, fresh via a relay's digest, equal, lower, advance a / b / max_interval / max_interval+1ms / bound+1ms, evaluate}} for every configuration of the grid (phi x window x (initial, max interval)), from the initial state and (two events shallower) from three non-initial roots: a live member, a member that died after being live, a member that received heartbeats while dead and was found dead again; oracle at every evaluation: never live without two observations at most max_interval apart since it was last found dead, live and dead disjoint and exhaustive, never live with fewer than two strictly increasing values, dead whenever the last strictly higher value is older than phi x max(max_interval, initial_interval); for C11 additionally every history containing equal/lower heartbeats is re-run without them and must give the same verdicts; non-trivial = histories with at least one live verdict");
     e.bounds = json!({"configs": cfgs.iter().map(|c| c.json()).collect::<Vec<_>>(), "depth": depth, "alphabet": ALPHABET.iter().map(|x| x.name()).collect::<Vec<_>>()});
     let mut viols = vec![];
     let ncfg = cfgs.len() as u64;
     for (i, cfg) in cfgs.iter().enumerate() {
-        let (t, v, capped) = exhaustive(cfg, depth, property, secs(tier.pick(50, 3000) * (i as u64 + 1) / ncfg));
-        e.tally.merge(&t);
-        viols.extend(v);
-        if capped {
-            e.exhaustive = false;
-            if e.caps_hit.is_empty() {
-                e.caps_hit.push("wall cap on at least one configuration".into());
+        for (ri, (_, root)) in roots().iter().enumerate() {
+            // the full depth from the initial state, depth - 2 from the non-initial roots
+            let d = if ri == 0 { depth } else { depth - 2 };
+            let (t, v, capped) = exhaustive(cfg, root, d, property, secs(tier.pick(50, 3000) * (i as u64 + 1) / ncfg));
+            e.tally.merge(&t);
+            viols.extend(v);
+            if capped {
+                e.exhaustive = false;
+                if e.caps_hit.is_empty() {
+                    e.caps_hit.push("wall cap on at least one configuration".into());
+                }
             }
         }
     }
